@@ -88,9 +88,9 @@ def concretise(v: Dict[str, str], k: int) -> Optional[str]:
     raise ValueError(f"no concretisation for class {c}")
 
 
-_NUM_INT = re.compile(r"^-?[0-9]+$")
-_NUM_DEC = re.compile(r"^-?([0-9]+\.[0-9]*|\.[0-9]+)$")
-_NUM_SEXA = re.compile(r"^-?[0-9]+[:; ][0-9]{2}(\.[0-9]+)?([:; ][0-9]{2}(\.[0-9]+)?)?$")
+_NUM_INT = re.compile(r"^[-+]?[0-9]+$")
+_NUM_DEC = re.compile(r"^[-+]?([0-9]+\.[0-9]*|\.[0-9]+)$")
+_NUM_SEXA = re.compile(r"^[-+]?[0-9]+[:; ][0-9]{2}(\.[0-9]+)?([:; ][0-9]{2}(\.[0-9]+)?)?$")
 
 
 def abstract_unknown(text: str) -> Dict[str, str]:
